@@ -22,6 +22,10 @@ for tc in ET.parse(xml).getroot().iter('testcase'):
     if not any(c.tag in ('failure', 'error', 'skipped') for c in tc):
         passed.add(f"{tc.get('classname')}::{tc.get('name')}")
 os.unlink(xml)
+paths = [a for a in args if not a.startswith('-') and ('/' in a or a.endswith('.py'))]
+if paths:
+    pref = tuple(p.rstrip('/').removesuffix('.py').replace('/', '.') for p in paths)
+    stable = {t for t in stable if t.startswith(pref)}
 missing = sorted(stable - passed)
 print(f'stable_pass={len(stable)} passed_now={len(passed)} stable_now_failing={len(missing)}')
 for m in missing[:40]:
